@@ -24,7 +24,16 @@ for pr in props:
         'C15':'Lib/Asyncio','C16':'Lib/Threads','C17':'Lib/Generator','C18':'Lib/Debug','C19':'Lib/Mock'}[pid]
     sr = [f"{k}: {v}" for k, v in sorted(seedres.items()) if k.startswith(pid + '-')]
     fnd = [f"{e['status']}: {e['signature']}" for e in kf if e['property'] == pid]
-    rows.append(f"| {pid} | {'yes' if pid in claimed else 'no'} | {model} | {len(thms)}: {', '.join(thms) if thms else '-'} | {'; '.join(sr) or '-'} | {'; '.join(fnd) or '-'} |")
+    try:
+        byc = getattr(m, 'BY_CONSTRUCTION', None) or getattr(m, 'BY_CONSTRUCTION_THEOREMS', None) or []
+    except Exception:
+        byc = []
+    byc = [t.split('.')[-1] for t in byc]
+    head = [t for t in thms if t not in byc]
+    cell = f"{len(head)}: {', '.join(head) if head else '-'}"
+    if byc:
+        cell += f" (+{len(byc)} that hold by construction of the model, audited but not part of the claim: {', '.join(byc)})"
+    rows.append(f"| {pid} | {'yes' if pid in claimed else 'no'} | {model} | {cell} | {'; '.join(sr) or '-'} | {'; '.join(fnd) or '-'} |")
 txt = open('/verif/DESIGN.md').read()
 new = "<!-- STATUS:BEGIN -->\n" + "\n".join(rows) + "\n<!-- STATUS:END -->"
 if '<!-- STATUS:BEGIN -->' in txt:
